@@ -49,6 +49,12 @@ let snapshot who s np =
   Buffer.add_string b (SS.concat "/" (SL.init np (fun p -> lab s p)));
   Buffer.contents b
 
+let is_idle s p =
+  if p = 0 then (match s.own with OIdle -> true | _ -> false)
+  else (match SL.nth_opt s.thv (p - 1) with Some TIdle -> true | None -> true | _ -> false)
+let silent s p =
+  let (id, _) = label s (ni p) in ostring id = "" && not (is_idle s p)
+
 let stepcap = 6000
 
 (* lock-step run; returns the printed line *)
@@ -70,9 +76,18 @@ let run_case size nth oprog tprogs sched =
     if not !ab then begin
       (if p >= 0 && p < np then begin
          let is_ret = (match sched_event !s !pg (ni p) with Some (Ret, _) -> true | _ -> false) in
-         match sched_step !s !pg (ni p) with
-         | Some (s', pg') -> s := s'; pg := pg'; if is_ret then ops_done.(p) <- ops_done.(p) + 1
-         | None -> ()
+         (match sched_step !s !pg (ni p) with
+          | Some (s', pg') -> s := s'; pg := pg'; if is_ret then ops_done.(p) <- ops_done.(p) + 1
+          | None -> ());
+         (* program points without a MYTH_VERIF_POINT (inside the wsapi functions): the harness runs
+            through them, so does the model *)
+         let guard = ref 0 in
+         while silent !s p && !guard < 50 do
+           (match sched_step !s !pg (ni p) with
+            | Some (s', pg') -> s := s'; pg := pg'
+            | None -> guard := 50);
+           incr guard
+         done
        end);
       if !s.aborted then (ab := true; out := "ABORT" :: !out)
       else out := snapshot p !s np :: !out;
